@@ -46,7 +46,7 @@ def sites(repo):
     out = []
     for d, _, fs in sorted(os.walk(os.path.join(repo, "bindgen"))):
         for f in sorted(fs):
-            if not f.endswith(".rs") or f in ("build.rs", "verif_hooks.rs"):
+            if not f.endswith(".rs") or f == "build.rs" or f.startswith("verif_"):
                 continue
             p = os.path.join(d, f)
             src = open(p).read()
@@ -64,6 +64,8 @@ def sites(repo):
                     lit = None
                     if toks[i + 3][1] == "(" and toks[i + 4][0] == "str":
                         lit = toks[i + 4][1].strip('"')
+                    if lit == "BINDGEN_VERIF_LOG":
+                        continue  # the verification hooks' own switch (cfg(bindgen_verif) code)
                     out.append({"file": os.path.relpath(p, repo), "fn": fn, "var": lit, "via_env_var": fn == "env_var"})
     # the wrapper itself must notify the callbacks before reading
     lib = lex(open(os.path.join(repo, "bindgen/lib.rs")).read())
